@@ -30,6 +30,12 @@
   * `C03_toplevel_access_specifier` (`Theorems/TopLevel.lean`): the same through one iteration of
     the parse loop on the regenerated dispatch table: `public :` etc. in a class body ends with the
     innermost class at the written access level, no callback, no doc text handed on.
+  * `C03_toplevel_field` (`Theorems/VarDecl.lean`, `TopLevel.lean`): a data member through the whole
+    parse loop and the recursive core — `T ptr-ops x ;` in a class body (same shape as
+    `C01_toplevel_variable`) delivers exactly ONE `on_class_field` for the innermost open class with
+    the name `x`, the type the declarator denotes, the access level in force in THAT class (the
+    value `C03_access_tracks` characterises), no bit width, no value and the doc text before or
+    else behind the declaration.
 -/
 import CxxModel.Blocks
 import CxxModel.Theorems.Events
@@ -133,6 +139,36 @@ theorem C03_toplevel_access_specifier (env : Env) (hc : env.cfg = genLexCfg) (F 
       w'.stack = { blk with access := some kw.value } :: rest ∧
       w'.events = w.events ∧ w'.delivered = w.delivered ∧ w'.anon = w.anon ∧ w'.muted = w.muted :=
   toplevel_access_specifier env (by rw [hc]; exact gen_rules_progress) F c w kw colon b' blk rest hstack hk hkw hcol hy
+
+end
+
+section
+open P
+
+theorem C03_toplevel_field (env : Env) (hc : env.cfg = genLexCfg) (F D : Nat) (w : World)
+    (first : Tok) (pairs : List (Tok × Tok)) (ops : List Tok) (x semi : Tok) (d1 : DType) (b1 b0 bmid bx b' : Buf)
+    (blk : Block) (rest : List Block) (hstack : w.stack = blk :: rest) (hk : blk.hdr.kind = .cls) (acc : String) (hacc : blk.access = some acc)
+    (hmu : w.muted = false) (hfa : ¬ env.faultAt = some w.delivered)
+    (htok : tokenEofOk env.cfg w.buf = .ok (some first, b1))
+    (hty : first.type = "NAME") (htv : identVal first.value = true)
+    (hall : ∀ p ∈ pairs, p.1.type = "DBL_COLON" ∧ p.2.type = "NAME" ∧ plainVal p.2.value = true)
+    (hy0 : Yields env.cfg b1 (pairs.flatMap (fun p => [p.1, p.2])) b0)
+    (hops : opsHeadOk ops = true) (hopsv : ∀ o ∈ ops, o.value ≠ "auto")
+    (hy : Yields env.cfg b0 ops bmid)
+    (ha : applyPtrOps (.type (.mk (.name first.value none :: pairs.map (fun p => .name p.2.value none)) none false) false false)
+      (ops.map (·.type)) = some d1)
+    (htx : tokenEofOk env.cfg bmid = .ok (some x, bx)) (hx : x.type = "NAME") (hxv : identVal x.value = true)
+    (hsemi : tokenEofOk env.cfg bx = .ok (some semi, b')) (hs : semi.type = ";")
+    (hF : pairs.length + ops.length + 2 ≤ F) :
+    ∃ (d : Option String) (bD : Buf) (w7 : World) (ct : CTok) (dox : Option String) (ev : Event),
+      getDoxygen env.cfg env.mcRe w.buf = .ok (d, bD) ∧
+      interp env (mainBody F (core F (D + 1 + 1)) none) w = (w7, .ok (.inl none)) ∧
+      SigEq b' w7.buf ∧ ct.value = first.value ∧ w7.stack = { blk with loc := .tok ct.sidx } :: rest ∧
+      w7.events = w.events ++ [ev] ∧ ev.kind = .item (.classField (plainField x d1 acc dox)) ∧
+      ev.stateId = blk.id ∧ ev.parentId = rest.head?.map (·.id) ∧ (∀ dd, d = some dd → dox = some dd) ∧
+      w7.delivered = w.delivered + 1 ∧ w7.anon = w.anon ∧ w7.muted = false ∧ w7.nextId = w.nextId :=
+  toplevel_field env (by rw [hc]; exact gen_rules_progress) F D w first pairs ops x semi d1 b1 b0 bmid bx b' blk rest hstack hk acc hacc hmu hfa
+    htok hty htv hall hy0 hops hopsv hy ha htx hx hxv hsemi hs hF
 
 end
 
